@@ -290,6 +290,7 @@ type lcCycle struct {
 	refD     int  // failing dials before this cycle's successful Connect
 	hlock    bool // the parked handler calls Connected() after the enders fired (D12)
 	relFirst bool // release the parked handler just before (instead of just after) the enders
+	errLine  int  // bit 1: the server says "ERROR :Closing Link ..." before it hangs up (eof); bit 2: an ERROR line mid-session that is NOT followed by a close
 }
 type lcScript struct {
 	tracking bool
@@ -299,7 +300,7 @@ type lcScript struct {
 	cycles   []lcCycle
 }
 
-const lcCycleFields = 17
+const lcCycleFields = 18
 
 func (sc lcScript) fields() Fields {
 	b := func(x bool) int {
@@ -311,7 +312,7 @@ func (sc lcScript) fields() Fields {
 	f := F("lc", b(sc.tracking), sc.pingMs, b(sc.flood), b(sc.ctx), len(sc.cycles))
 	for _, c := range sc.cycles {
 		f = append(f, F(b(c.welcome), c.hs, c.inN, c.segs, c.outN, c.outBy, c.closeN, b(c.eof), b(c.rderr),
-			b(c.wrerr), b(c.cancel), c.origin, c.refA, c.refN, c.refD, b(c.hlock), b(c.relFirst))...)
+			b(c.wrerr), b(c.cancel), c.origin, c.refA, c.refN, c.refD, b(c.hlock), b(c.relFirst), c.errLine)...)
 	}
 	return f
 }
@@ -323,7 +324,7 @@ func lcParse(in Fields) lcScript {
 		sc.cycles = append(sc.cycles, lcCycle{welcome: in.I(p) == 1, hs: in.I(p + 1), inN: in.I(p + 2), segs: in.I(p + 3),
 			outN: in.I(p + 4), outBy: in.I(p + 5), closeN: in.I(p + 6), eof: in.I(p+7) == 1, rderr: in.I(p+8) == 1,
 			wrerr: in.I(p+9) == 1, cancel: in.I(p+10) == 1, origin: in.I(p + 11), refA: in.I(p + 12), refN: in.I(p + 13),
-			refD: in.I(p + 14), hlock: in.I(p+15) == 1, relFirst: in.I(p+16) == 1})
+			refD: in.I(p + 14), hlock: in.I(p+15) == 1, relFirst: in.I(p+16) == 1, errLine: in.I(p + 17)})
 	}
 	return sc
 }
@@ -730,6 +731,15 @@ func (k *lcCase) cycleBody(i int) bool {
 			}
 		}
 	}
+	// an ERROR line in the middle of the session that is NOT followed by a close (servers send
+	// them, e.g. for a refused oper command): the connection must go on working
+	if cy.errLine&2 != 0 {
+		go s.write("ERROR :no privileges, carry on\r\n")
+		if !s.marker(fmt.Sprintf("er%d", i), lcBudget) {
+			k.unfresh("cycle %d: connection not working after an ERROR line from the server", i)
+			return k.abandon(s)
+		}
+	}
 	// refused Connects on the live connection, each followed by a marker round trip
 	for j := 0; j < cy.refA+cy.refN; j++ {
 		if j >= cy.refA {
@@ -822,7 +832,14 @@ func (k *lcCase) cycleBody(i int) bool {
 		}()
 	}
 	if cy.eof {
-		go func() { <-start; s.c.Close() }()
+		go func() {
+			<-start
+			if cy.errLine&1 != 0 { // what every real server does before it hangs up
+				s.c.SetWriteDeadline(time.Now().Add(300 * time.Millisecond))
+				s.c.Write([]byte("ERROR :Closing Link: vbot[h] (Quit: bye)\r\n"))
+			}
+			s.c.Close()
+		}()
 	}
 	if cy.rderr {
 		go func() { <-start; s.cli.SetReadDeadline(time.Unix(1, 0)) }()
@@ -940,9 +957,14 @@ func lcChildMain() {
 		fmt.Fprintf(out, "B %s\n", in.String())
 		out.Flush()
 		var obs Fields
-		if in.S(0) == "lctcp" {
+		switch in.S(0) {
+		case "lctcp":
 			obs = lcRunTCP(in).fields()
-		} else {
+		case "lcquit":
+			obs = lcRunQuit(in).fields()
+		case "lcslow":
+			obs = lcRunSlowDial(in).fields()
+		default:
 			obs = lcRunCase(lcParse(in)).fields()
 		}
 		fmt.Fprintf(out, "R %s | %s\n", in.String(), obs.String())
@@ -1134,8 +1156,13 @@ func lcExec(in Fields) Fields {
 }
 
 func lcClass(in Fields) string {
-	if in.S(0) == "lctcp" {
+	switch in.S(0) {
+	case "lctcp":
 		return fmt.Sprintf("tcp timeout=%dms hold=%dms cycles=%d", in.I(1), in.I(2), in.I(3))
+	case "lcquit":
+		return fmt.Sprintf("quit-then-reconnect origin=%d", in.I(1))
+	case "lcslow":
+		return "slow dial past the connect deadline"
 	}
 	sc := lcParse(in)
 	if len(sc.cycles) == 0 {
